@@ -4,9 +4,381 @@ import CasbinVerif.Spec.Perm
 import CasbinVerif.Proofs.RoleGraph
 import CasbinVerif.Proofs.Enforce
 import CasbinVerif.Proofs.Effector
+import CasbinVerif.Proofs.C17Eval
+import CasbinVerif.Proofs.C17Loop
 /-
-  Lemmas for Properties/C17.lean.
+  Lemmas for Properties/C17.lean: `enforce` reduced to its decision part `enfDec`, and the
+  monotonicity / permutation lemmas on `enfDec`; reachability is monotone in the link set.
 -/
 namespace Casbin.C17
+
+/-! ### role graph -/
+
+theorem reach_mono {links links' : List Link} (hsub : ∀ l ∈ links, l ∈ links') {d : String} {n : Nat}
+    {u r : String} (h : ReachWithin links d n u r) : ReachWithin links' d n u r := by
+  induction h with
+  | refl n u => exact .refl n u
+  | step he _ ih => exact .step (hsub _ he) ih
+
+theorem hasLink_mono' (rm rm' : RM) (hk : rm.kind = rm'.kind) (hm : rm.maxLevel = rm'.maxLevel)
+    (hsub : ∀ l ∈ rm.links, l ∈ rm'.links) (u r : String) (ds : List String)
+    (h : rm.hasLink u r ds = true) : rm'.hasLink u r ds = true := by
+  rw [hasLink_iff_reach'] at h ⊢
+  have hd : rm'.dom ds = rm.dom ds := by simp only [RM.dom, hk]
+  rw [hd, ← hm]
+  exact reach_mono hsub h
+
+theorem addLink_maxLevel (rm : RM) (u r : String) (ds : List String) :
+    (rm.addLink u r ds).maxLevel = rm.maxLevel := by
+  unfold RM.addLink
+  simp only
+  split <;> rfl
+
+/-! ### `enforce` and its decision part -/
+
+/-- the decision part of `enforce` once the four definitions have been found -/
+def enfDec (k : EffectKind) (m : Expr) (tokens : List String) (pol : List Rule) (ρ : Env) : Option Bool :=
+  if !pol.isEmpty && m.mentionsP then
+    (loopFromE k pol.length [] (pol.map (evalRule ρ m tokens))).map decision
+  else if m.hasEval && pol.isEmpty then none
+  else
+    match evalExpr evalFuel { ρ with p := List.replicate tokens.length "" } m with
+    | some (.bool b) => some (decision (elseBranch k b))
+    | _ => none
+
+theorem kindOf_some {md : ModelDef} {ctx : EnforceCtx} {k : EffectKind} (hk : kindOf md ctx = some k) :
+    ∃ eexpr, md.e.lookup ctx.eType = some eexpr ∧ EffectKind.ofExpr eexpr = some k := by
+  unfold kindOf at hk
+  cases he : md.e.lookup ctx.eType with
+  | none => simp [he] at hk
+  | some x => exact ⟨x, rfl, by simpa [he] using hk⟩
+
+theorem enforce_map_fst (md : ModelDef) (policy : String → List Rule)
+    (links : String → List String → Bool) (fn : String → List Val → Res)
+    (evalTab : String → Option Expr) (ctx : EnforceCtx) (rvals : List Val)
+    (m : Expr) (tokens : List String) (k : EffectKind)
+    (hm : md.m.lookup ctx.mType = some m) (hr : md.r.lookup ctx.rType = some rvals.length)
+    (hp : md.p.lookup ctx.pType = some tokens) (hk : kindOf md ctx = some k) :
+    (enforce md policy links fn evalTab ctx none rvals).map (·.1) =
+      enfDec k m tokens (policy ctx.pType) ⟨rvals, [], fn, links, evalTab⟩ := by
+  obtain ⟨eexpr, he, hke⟩ := kindOf_some hk
+  unfold enforce enfDec
+  simp only [hm, hr, hp, he, hke, bne_self_eq_false, Bool.false_eq_true, if_false]
+  split
+  · cases loopFromE k (policy ctx.pType).length [] _ <;> rfl
+  · split
+    · rfl
+    · split <;> simp_all
+
+theorem enforce_some_lookups (md : ModelDef) (policy : String → List Rule)
+    (links : String → List String → Bool) (fn : String → List Val → Res)
+    (evalTab : String → Option Expr) (ctx : EnforceCtx) (rvals : List Val) (d : Bool)
+    (h : (enforce md policy links fn evalTab ctx none rvals).map (·.1) = some d) :
+    ∃ m tokens, md.m.lookup ctx.mType = some m ∧ md.r.lookup ctx.rType = some rvals.length ∧
+      md.p.lookup ctx.pType = some tokens := by
+  unfold enforce at h
+  cases hm : md.m.lookup ctx.mType with
+  | none => simp [hm] at h
+  | some m =>
+    cases hr : md.r.lookup ctx.rType with
+    | none => simp [hm, hr] at h
+    | some ra =>
+      cases hp : md.p.lookup ctx.pType with
+      | none => simp [hm, hr, hp] at h
+      | some tokens =>
+        refine ⟨m, tokens, rfl, ?_, rfl⟩
+        simp only [hm, hr, hp] at h
+        by_cases hra : ra = rvals.length
+        · rw [hra]
+        · have : (ra != rvals.length) = true := by simpa using hra
+          simp [this] at h
+
+/-! ### adding links -/
+
+/-- one rule against a grown link oracle: an error, or a cell that is a matched allow if it was -/
+theorem evalRule_grow (ρ ρ' : Env) (m : Expr) (tokens : List String) (rule : Rule)
+    (hr : ρ.r = ρ'.r) (hf : ρ.fn = ρ'.fn)
+    (hl : LinkLe ρ.link ρ'.link) (hpos : m.positive = true) (c : Cell)
+    (h : evalRule ρ m tokens rule = some c) :
+    evalRule ρ' m tokens rule = none ∨
+      ∃ c', evalRule ρ' m tokens rule = some c' ∧ (isAllow c = true → isAllow c' = true) := by
+  unfold evalRule at h ⊢
+  by_cases hlen : (tokens.length != rule.length) = true
+  · simp [hlen] at h
+  · simp only [hlen, if_false, Bool.false_eq_true] at h ⊢
+    cases hv : evalExpr evalFuel { ρ with p := rule } m with
+    | none => simp [hv] at h
+    | some v =>
+      rw [hv] at h
+      rcases evalExpr_positive evalFuel { ρ with p := rule } { ρ' with p := rule } m hr rfl hf hl hpos v hv
+        with hn | ⟨v', hv', hR⟩
+      · left; rw [hn]
+      · rw [hv']
+        rcases hR with rfl | ⟨rfl, rfl⟩
+        · right
+          simp only at h
+          cases ht : truthy v with
+          | none => simp [ht] at h
+          | some b =>
+            simp only [ht, Option.some.injEq] at h
+            exact ⟨c, by simp [ht, h], id⟩
+        · right
+          simp only [truthy, Option.some.injEq] at h
+          subst h
+          exact ⟨⟨true, ruleEft tokens rule⟩, rfl, by simp [isAllow]⟩
+
+theorem enfDec_link_mono (m : Expr) (tokens : List String) (pol : List Rule) (ρ ρ' : Env)
+    (hr : ρ.r = ρ'.r) (hf : ρ.fn = ρ'.fn)
+    (hl : LinkLe ρ.link ρ'.link) (hpos : m.positive = true)
+    (h : enfDec .allowOverride m tokens pol ρ = some true) :
+    enfDec .allowOverride m tokens pol ρ' ≠ some false := by
+  unfold enfDec at h ⊢
+  split
+  · rename_i hb
+    rw [if_pos hb] at h
+    intro h'
+    cases h1 : loopFromE .allowOverride pol.length [] (pol.map (evalRule ρ m tokens)) with
+    | none => simp [h1] at h
+    | some r =>
+      cases h2 : loopFromE .allowOverride pol.length [] (pol.map (evalRule ρ' m tokens)) with
+      | none => simp [h2] at h'
+      | some r' =>
+        simp only [h1, Option.map_some, Option.some.injEq] at h
+        simp only [h2, Option.map_some, Option.some.injEq] at h'
+        obtain ⟨c, hc, ha⟩ := loopE_allow_true _ _ _ r h1 h
+        obtain ⟨rule, hrule, he⟩ := List.mem_map.1 hc
+        have hall := loopE_allow_false _ _ _ r' h2 h' (evalRule ρ' m tokens rule)
+          (List.mem_map.2 ⟨rule, hrule, rfl⟩)
+        obtain ⟨c2, hc2, hna⟩ := hall
+        rcases evalRule_grow ρ ρ' m tokens rule hr hf hl hpos c he with hn | ⟨c', hc', himp⟩
+        · rw [hn] at hc2; cases hc2
+        · rw [hc'] at hc2
+          cases hc2
+          rw [himp ha] at hna
+          cases hna
+  · rename_i hb
+    rw [if_neg hb] at h
+    split
+    · simp
+    · rename_i hb2
+      rw [if_neg hb2] at h
+      cases hv : evalExpr evalFuel { ρ with p := List.replicate tokens.length "" } m with
+      | none => simp [hv] at h
+      | some v =>
+        have hg := evalExpr_positive evalFuel { ρ with p := List.replicate tokens.length "" }
+          { ρ' with p := List.replicate tokens.length "" } m hr rfl hf hl hpos v hv
+        rw [hv] at h
+        cases v with
+        | bool b =>
+          simp only [Option.some.injEq] at h
+          have hb : b = true := by cases b <;> simp_all [elseBranch, mergeEffects, decision]
+          subst hb
+          rcases hg with hn | ⟨v', hv', hR⟩
+          · rw [hn]; simp
+          · have : v' = .bool true := by
+              rcases hR with rfl | ⟨h1, _⟩
+              · rfl
+              · cases h1
+            subst this
+            rw [hv']
+            simp [elseBranch, mergeEffects, decision]
+        | _ => simp at h
+
+/-! ### adding rules -/
+
+theorem sublist_nil_of {α : Type} {l l' : List α} (h : l.Sublist l') (h' : l'.isEmpty = true) :
+    l.isEmpty = true := by
+  have : l' = [] := by simpa using h'
+  subst this
+  simp [List.sublist_nil.1 h]
+
+theorem enfDec_rule_mono (m : Expr) (tokens : List String) (pol pol' : List Rule) (ρ : Env)
+    (hsub : pol.Sublist pol') (hD24 : pol ≠ [] ∨ m.mentionsP = false)
+    (h : enfDec .allowOverride m tokens pol ρ = some true) :
+    enfDec .allowOverride m tokens pol' ρ ≠ some false := by
+  unfold enfDec at h ⊢
+  by_cases hb : (!pol.isEmpty && m.mentionsP) = true
+  · rw [if_pos hb] at h
+    simp only [Bool.and_eq_true, Bool.not_eq_true'] at hb
+    have hb' : (!pol'.isEmpty && m.mentionsP) = true := by
+      simp only [Bool.and_eq_true, Bool.not_eq_true']
+      refine ⟨?_, hb.2⟩
+      cases hx : pol'.isEmpty
+      · rfl
+      · rw [sublist_nil_of hsub hx] at hb; exact absurd hb.1 (by simp)
+    rw [if_pos hb']
+    intro h'
+    cases h1 : loopFromE .allowOverride pol.length [] (pol.map (evalRule ρ m tokens)) with
+    | none => simp [h1] at h
+    | some r =>
+      cases h2 : loopFromE .allowOverride pol'.length [] (pol'.map (evalRule ρ m tokens)) with
+      | none => simp [h2] at h'
+      | some r' =>
+        simp only [h1, Option.map_some, Option.some.injEq] at h
+        simp only [h2, Option.map_some, Option.some.injEq] at h'
+        obtain ⟨c, hc, ha⟩ := loopE_allow_true _ _ _ r h1 h
+        obtain ⟨rule, hrule, he⟩ := List.mem_map.1 hc
+        obtain ⟨c2, hc2, hna⟩ := loopE_allow_false _ _ _ r' h2 h' (evalRule ρ m tokens rule)
+          (List.mem_map.2 ⟨rule, hsub.subset hrule, rfl⟩)
+        rw [he] at hc2
+        cases hc2
+        rw [ha] at hna
+        cases hna
+  · rw [if_neg hb] at h
+    have hmp : m.mentionsP = false := by
+      rcases hD24 with hne | hmp
+      · cases pol with
+        | nil => exact absurd rfl hne
+        | cons a l => simpa using hb
+      · exact hmp
+    have hb' : ¬ ((!pol'.isEmpty && m.mentionsP) = true) := by simp [hmp]
+    rw [if_neg hb']
+    by_cases hb2 : (m.hasEval && pol.isEmpty) = true
+    · simp [hb2] at h
+    · rw [if_neg hb2] at h
+      split
+      · simp
+      · rw [h]; simp
+
+theorem enfDec_deny_mono (m : Expr) (tokens : List String) (pol pol' : List Rule) (ρ : Env)
+    (hsub : pol.Sublist pol')
+    (h : enfDec .denyOverride m tokens pol ρ = some false) :
+    enfDec .denyOverride m tokens pol' ρ ≠ some true := by
+  unfold enfDec at h ⊢
+  by_cases hb : (!pol.isEmpty && m.mentionsP) = true
+  · rw [if_pos hb] at h
+    simp only [Bool.and_eq_true, Bool.not_eq_true'] at hb
+    have hb' : (!pol'.isEmpty && m.mentionsP) = true := by
+      simp only [Bool.and_eq_true, Bool.not_eq_true']
+      refine ⟨?_, hb.2⟩
+      cases hx : pol'.isEmpty
+      · rfl
+      · rw [sublist_nil_of hsub hx] at hb; exact absurd hb.1 (by simp)
+    rw [if_pos hb']
+    intro h'
+    cases h1 : loopFromE .denyOverride pol.length [] (pol.map (evalRule ρ m tokens)) with
+    | none => simp [h1] at h
+    | some r =>
+      cases h2 : loopFromE .denyOverride pol'.length [] (pol'.map (evalRule ρ m tokens)) with
+      | none => simp [h2] at h'
+      | some r' =>
+        simp only [h1, Option.map_some, Option.some.injEq] at h
+        simp only [h2, Option.map_some, Option.some.injEq] at h'
+        have hne : pol.map (evalRule ρ m tokens) ≠ [] := by
+          intro e
+          have : pol = [] := by simpa using e
+          subst this
+          simp at hb
+        obtain ⟨c, hc, ha⟩ := loopE_deny_false _ _ _ (by simp) hne r h1 h
+        obtain ⟨rule, hrule, he⟩ := List.mem_map.1 hc
+        obtain ⟨c2, hc2, hna⟩ := loopE_deny_true _ _ _ (by simp) r' h2 h' (evalRule ρ m tokens rule)
+          (List.mem_map.2 ⟨rule, hsub.subset hrule, rfl⟩)
+        rw [he] at hc2
+        cases hc2
+        rw [ha] at hna
+        cases hna
+  · rw [if_neg hb] at h
+    exfalso
+    by_cases hb2 : (m.hasEval && pol.isEmpty) = true
+    · simp [hb2] at h
+    · rw [if_neg hb2] at h
+      split at h
+      · rename_i b _
+        cases b <;> simp [elseBranch, mergeEffects, decision] at h
+      · cases h
+
+/-! ### permuting rules -/
+
+/-- the loop over a permutation cannot flip `true` to `false` -/
+theorem loopE_perm_tf (k : EffectKind)
+    (hnp : k = .allowOverride ∨ k = .denyOverride ∨ k = .allowAndDeny)
+    (todo todo' : List (Option Cell)) (hperm : todo.Perm todo')
+    (r r' : Eft × Option Nat)
+    (h : loopFromE k todo.length [] todo = some r) (h' : loopFromE k todo'.length [] todo' = some r')
+    (hd : decision r = true) (hd' : decision r' = false) : False := by
+  have hne' : todo ≠ [] → todo' ≠ [] := by
+    intro hne e
+    subst e
+    exact hne hperm.eq_nil
+  rcases hnp with rfl | rfl | rfl
+  · obtain ⟨c, hc, ha⟩ := loopE_allow_true _ _ _ r h hd
+    obtain ⟨c2, hc2, hna⟩ := loopE_allow_false _ _ _ r' h' hd' (some c) (hperm.mem_iff.1 hc)
+    cases hc2
+    rw [ha] at hna
+    cases hna
+  · have hne : todo' ≠ [] := by
+      apply hne'
+      intro e
+      subst e
+      rw [loopE_nil] at h
+      cases h
+      simp [decision] at hd
+    obtain ⟨c, hc, ha⟩ := loopE_deny_false _ _ _ (by simp) hne r' h' hd'
+    obtain ⟨c2, hc2, hna⟩ := loopE_deny_true _ _ _ (by simp) r h hd (some c) (hperm.mem_iff.2 hc)
+    cases hc2
+    rw [ha] at hna
+    cases hna
+  · have hne : todo' ≠ [] := by
+      apply hne'
+      intro e
+      subst e
+      rw [loopE_nil] at h
+      cases h
+      simp [decision] at hd
+    obtain ⟨hall, c, hc, ha⟩ := loopE_aad_true _ _ _ (by simp) r h hd
+    have hc : some c ∈ todo := by
+      rcases hc with hc | hc
+      · cases hc
+      · exact hc
+    rcases loopE_aad_false _ _ _ (by simp) hne r' h' hd' with ⟨c', hc', hdn⟩ | hna
+    · obtain ⟨c2, hc2, hnd⟩ := hall (some c') (hperm.mem_iff.2 hc')
+      cases hc2
+      rw [hdn] at hnd
+      cases hnd
+    · have := hna c (.inr (hperm.mem_iff.1 hc))
+      rw [ha] at this
+      cases this
+
+theorem enfDec_perm (k : EffectKind)
+    (hnp : k = .allowOverride ∨ k = .denyOverride ∨ k = .allowAndDeny)
+    (m : Expr) (tokens : List String) (pol pol' : List Rule) (ρ : Env)
+    (hperm : pol.Perm pol') (d d' : Bool)
+    (h : enfDec k m tokens pol ρ = some d) (h' : enfDec k m tokens pol' ρ = some d') : d = d' := by
+  have hemp : pol.isEmpty = pol'.isEmpty := by
+    cases pol with
+    | nil => rw [hperm.nil_eq]
+    | cons a l =>
+      cases pol' with
+      | nil => exact absurd hperm.eq_nil (by simp)
+      | cons a' l' => rfl
+  unfold enfDec at h h'
+  rw [← hemp] at h'
+  by_cases hb : (!pol.isEmpty && m.mentionsP) = true
+  · rw [if_pos hb] at h h'
+    cases h1 : loopFromE k pol.length [] (pol.map (evalRule ρ m tokens)) with
+    | none => simp [h1] at h
+    | some r =>
+      cases h2 : loopFromE k pol'.length [] (pol'.map (evalRule ρ m tokens)) with
+      | none => simp [h2] at h'
+      | some r' =>
+        simp only [h1, Option.map_some, Option.some.injEq] at h
+        simp only [h2, Option.map_some, Option.some.injEq] at h'
+        have hp := hperm.map (evalRule ρ m tokens)
+        have e1 : pol.length = (pol.map (evalRule ρ m tokens)).length := by simp
+        have e2 : pol'.length = (pol'.map (evalRule ρ m tokens)).length := by simp
+        rw [e1] at h1
+        rw [e2] at h2
+        cases d <;> cases d'
+        · rfl
+        · exact (loopE_perm_tf k hnp _ _ hp.symm r' r h2 h1 h' h).elim
+        · exact (loopE_perm_tf k hnp _ _ hp r r' h1 h2 h h').elim
+        · rfl
+  · rw [if_neg hb] at h h'
+    by_cases hb2 : (m.hasEval && pol.isEmpty) = true
+    · simp [hb2] at h
+    · rw [if_neg hb2] at h h'
+      rw [h] at h'
+      cases h'
+      rfl
 
 end Casbin.C17
